@@ -183,6 +183,31 @@ def run_arguments(shard, tier):
                     out["unknown"] += 1
                     out["skipped"].append(f"{name}: 8 solver witnesses did not reproduce ({text})")
                     break
+            # the inclusion above is about the validator's language: check that the real analysis applies the validator --
+            # arguments outside L(validator) (solver-generated, and the empty argument written with and without ':') that the
+            # engine refuses must be reported by the real analysis
+            if cmd.arg_parser is not None:
+                cands = [name, name + ":"]
+                gen = z3.Solver()
+                gen.set("timeout", 5000)
+                gen.add(z3.Not(z3.InRe(s, la)), z3.InRe(s, reach), z3.Not(z3.InRe(s, le)), z3.Length(s) > 0)
+                for _ in range(2):
+                    out["queries"] += 1
+                    if gen.check() != z3.sat:
+                        break
+                    a = rx.model_str(gen.model(), s)
+                    cands.append(_pcode_for(name, a))
+                    gen.add(s != rx.sval(a))
+                for pcode in cands:
+                    out["validator_applied_checks"] = out.get("validator_applied_checks", 0) + 1
+                    if sides.analyzer_errors(pcode):
+                        continue
+                    ok, kind, text = _e2e(uod_name, pcode, ("argument",))
+                    if ok:
+                        out["violations"].append({"signature": f"arguments|validator-not-applied|command={name}|uod={_uod_class(uod_name, name)}",
+                                                  "detail": f"{uod_name}: the argument of {pcode!r} is outside the validator's language ({la_desc}) but the analysis reports nothing; run fails: {text}",
+                                                  "witness": {"uod": uod_name, "pcode": pcode, "kind": "validator-not-applied"}})
+                        break
     finally:
         sides.close()
     return out
@@ -215,7 +240,8 @@ def replay_e2e(witness, shard):
 
 def replay_arguments(witness, shard):
     name = witness["pcode"].split(":")[0]
-    w = dict(witness, signature=f"arguments|command={name}|uod={_uod_class(witness['uod'], name)}", kinds=["argument"])
+    mid = "validator-not-applied|" if witness.get("kind") == "validator-not-applied" else ""
+    w = dict(witness, signature=f"arguments|{mid}command={name}|uod={_uod_class(witness['uod'], name)}", kinds=["argument"])
     replay_e2e(w, shard)
 
 
